@@ -156,12 +156,32 @@ impl Prop for Seqs {
                 Step::Local { r, .. } => {
                     let r = *r as usize % n;
                     let before = visible(&w.reps[r]);
+                    let mut model = w.reps[r].dump();
                     let info = match w.step(s) {
                         Ok(x) => x,
                         Err(e) => fail!("c04/transport/apply-failed", "{}: {}", when, e),
                     };
                     let after = visible(&w.reps[r]);
                     if let StepInfo::Local { update: Some(u), .. } = info {
+                        // placed where inserted: the author's own view after the transaction is its
+                        // view before it with the operations applied at the positions it asked for
+                        // (a state reached through remote integration: tombstones, split blocks,
+                        // concurrent neighbours)
+                        for op in w.updates[u].ops.iter() {
+                            if let Err(e) = crate::interp::apply_model(&mut model, op) {
+                                fail!("c04/harness/model-navigation", "{}: {} for {:?}", when, e, op.cop);
+                            }
+                        }
+                        let real = w.reps[r].dump();
+                        if real != model {
+                            fail!(
+                                "c04/not-placed-where-asked",
+                                "{}: the author's view after its own transaction is not its view before it with the operations applied at the requested positions: {}",
+                                when,
+                                crate::dump::first_diff(&real, &model).unwrap_or_default()
+                            );
+                        }
+                        st.hit("local_transactions_checked_against_positions");
                         for k in 0..3 {
                             let b: BTreeSet<&String> = before[k].iter().collect();
                             let a: BTreeSet<&String> = after[k].iter().collect();
